@@ -271,6 +271,9 @@ class SymObjListT(Spec):
             funcs[f] = (z3.Function(f"{name}.{f}", z3.IntSort(), sort), spec.label.split('(')[0])
         return V.SymList(name, n, ObjT(self.cls_path).resolve(), funcs)
 
+    def accepts(self, v):
+        return isinstance(v, _v().SymList)
+
 
 class LockT(Spec):
     label = 'lock'
